@@ -38,17 +38,22 @@ func VerifC19RealSelectors() {
 		hasApp = true
 	}
 	annos := map[string]string{}
+	// the inject label and the inject annotation: each absent or one of true / false / something else; the label wins
+	// whenever it is present (whatever its value)
+	vals := []string{"true", "false", "maybe"}
 	explicit := ""
-	switch vp.Choice("explicit", 4) {
-	case 1:
-		explicit = []string{"true", "false", "maybe"}[vp.Choice("labelVal", 3)]
+	annoV := vp.Choice("annoVal", 4)
+	if annoV > 0 {
+		annos[annotation.SidecarInject.Name] = vals[annoV-1]
+		explicit = vals[annoV-1]
+	}
+	labelV := vp.Choice("labelVal", 4)
+	if labelV > 0 {
 		if lbls == nil {
 			lbls = map[string]string{}
 		}
-		lbls[label.SidecarInject.Name] = explicit
-	case 2:
-		explicit = []string{"true", "false", "maybe"}[vp.Choice("annoVal", 3)]
-		annos[annotation.SidecarInject.Name] = explicit
+		lbls[label.SidecarInject.Name] = vals[labelV-1]
+		explicit = vals[labelV-1]
 	}
 	pick := func(p string) ([]metav1.LabelSelector, bool) {
 		n := vp.Choice(p+".n", 3)
